@@ -88,7 +88,7 @@ def units(tier, seed):
 def all_cases(b):
   ks = shapes.std_kinds(MENU)
   for s in shapes.all_shapes(ks, b['n'], b['nl'], root_kinds=ROOTS):
-    for tagv in ('none', 'tags'):
+    for tagv in ('none', 'tags', 'onetag'):
       yield 'main', s, tagv
   ks2 = shapes.std_kinds(b['small_menu'])
   for s in shapes.enumerate_shapes(ks2, b['n_small'], b['small_nl'],
@@ -121,6 +121,12 @@ def make(menu_name, shape, tagv, b, leafset=0):
     _BY[key] = {k.name: k for k in shapes.std_kinds(menu)}
   objs = shapes.materialize(shape, _BY[key], LEAFSETS[leafset])
   root = objs[-1]
+  if tagv == 'onetag':
+    # exactly one tagged argument in the whole graph, with a tag that has
+    # parent tags (only the tag-related entry points are run on it)
+    names = _named(root)
+    if names:
+      fdl.add_tag(root, names[-1], N.TagD)
   if tagv == 'tags':
     for o in objs:
       if isinstance(o, fdl.Buildable) and not isinstance(
@@ -310,6 +316,7 @@ def api_table():
       c, N.node, buildable_type=fdl.Partial, check_nonempty=False))
   t['grep'] = lambda c, o: grep_lib.grep(c, 'L1|node', output_fn=lambda s: 0)
   t['cast'] = lambda c, o: fdl.cast(fdl.Partial, c)
+  t['cast(same type)'] = lambda c, o: fdl.cast(type(c), c)
   t['copy_with'] = lambda c, o: fdl.copy_with(c, **{
       n: 'NEW' for n in _named(c)[:1]})
   t['deepcopy_with'] = lambda c, o: fdl.deepcopy_with(c, **{
@@ -333,7 +340,7 @@ def api_table():
   return t
 
 
-COPY_APIS = {'cast', 'copy_with', 'deepcopy_with', 'deepcopy_with(last)',
+COPY_APIS = {'cast', 'cast(same type)', 'copy_with', 'deepcopy_with', 'deepcopy_with(last)',
              'deepcopy_with(tagged value)', 'copy_with(tagged value)',
              'copy.copy', 'copy.deepcopy', 'pickle'}
 DEEP_COPY_APIS = {'deepcopy_with', 'deepcopy_with(last)',
@@ -389,7 +396,8 @@ def check_case(menu_name, shape, tagv, b, res, only=None, leafsets=None):
   if API is None:
     API = api_table()
   if leafsets is None:
-    leafsets = range(len(LEAFSETS)) if menu_name == 'main' else (0,)
+    leafsets = range(len(LEAFSETS)) if (
+        menu_name == 'main' and tagv != 'onetag') else (0,)
   for leafset in leafsets:
     _check_case(menu_name, shape, tagv, b, res, only, leafset)
 
@@ -399,6 +407,8 @@ def _check_case(menu_name, shape, tagv, b, res, only, leafset):
     if only and name != only:
       continue
     if leafset and name not in LENGTH_APIS:
+      continue
+    if tagv == 'onetag' and 'tag' not in name.lower():
       continue
     cfg = make(menu_name, shape, tagv, b, leafset)
     other = make_other(cfg)
@@ -426,6 +436,9 @@ def _check_case(menu_name, shape, tagv, b, res, only, leafset):
       res.violation(
           f'C17/input-identity-or-history-changed/{name}',
           f'{case}: {diff[:2]}', case)
+    elif outcome == 'ok' and name in COPY_APIS and out is cfg:
+      res.violation(f'C17/copy-returning-api-returned-its-input/{name}',
+                    f'{case}', case)
     elif (outcome == 'ok' and name in COPY_APIS and
           isinstance(out, fdl.Buildable) and out is not cfg):
       # what a copy-returning API hands back can be edited without the
